@@ -192,6 +192,8 @@ def run(ctx):
     entries = [n for n, r in f.fns.items() if r.get("has_body") and r.get("exported") and
                (n.startswith("rrdp::") or n.startswith("<rrdp::") or n.startswith("xml::decode::"))]
     C04.check_reachable_sites(ctx, f, entries, "the RRDP parsers, processors and notification-file checks", 120, 150)
+    K.check_attribute_arms(ctx, f, "R-SIB", "rrdp::", 5)
+    K.check_element_slots_fresh(ctx, f, "R-SIB", "rrdp::", 3)
     K.check_attr_values_unescaped(ctx, f)
     check_text_impls_escape(ctx, f)
     # the root element of the three RRDP documents is read under one and the same (header) limit
